@@ -301,6 +301,40 @@ def run_C01(ck):
         meta['ref'] = rq[:400]
         cases.append({'line': line, 'meta': meta, 'raw_expect': enc[1]})
         ck.count('raw_dict_%d' % meta['dict'])
+    # configuration cross: the same well-formed stream under random COMBINATIONS of entry point x header option x memory limit x
+    # allow_incomplete x reader policy x sink policy x chunking - options are crossed, not varied one at a time
+    xs = gen_lzma_streams(rng, 8 if ck.tier == 'quick' else 60, big_every=4, max_syms=40) + gen_wrap_streams(rng, 2 if ck.tier == 'quick' else 8, ('marker', 'sized', 'sized+marker'))
+    cross = []
+    for s_ in xs:
+        b_ = s_['bytes']; need_ = min(max(s_['dict'], 4096), s_['n'])
+        for _ in range(6 if ck.tier == 'quick' else 12):
+            size_ = 'none' if s_['style'] == 'marker' else str(s_['n'])
+            okind = rng.choice(['rfh', 'rhp', 'up'])
+            opt_, d_ = ('rfh', b_) if okind == 'rfh' else ('rhp:' + size_, b_[:5] + junk_field(rng) + b_[13:]) if okind == 'rhp' else ('up:' + size_, b_[:5] + b_[13:])
+            mem_ = rng.choice(['none', str(need_), str(need_ + 1), str(max(s_['dict'], 4096)), str(1 << 40)])
+            wr_ = rng.choice(['all', '1', '3,1', '4095,2', '1000'])
+            if rng.chance(1, 2):
+                line_ = 'lzma_dec opt=%s mem=%s in=%s rd=%s wr=%s' % (opt_, mem_, hx(d_), rng.choice(['all', '1', '7,3', 'std:buf:%d' % rng.range(1, 40)]), wr_)
+                cross.append({'line': line_, 'meta': light(s_), 'meta_full': s_, 'cross': 'oneshot'})
+            else:
+                lens_ = chunkings(rng, len(d_), rng.choice(['whole', 'random', 'single', 'early', 'bytes' if len(d_) < 300 else 'random']))
+                while len(lens_) > 1 and lens_[0] < 18: lens_ = [lens_[0] + lens_[1]] + lens_[2:]      # nothing stays staged with the header (see C15)
+                line_ = 'stream opt=%s mem=%s allow=%d calls=%s wr=%s' % (opt_, mem_, rng.below(2), stream_calls(d_, lens_, rng=rng), wr_)
+                cross.append({'line': line_, 'meta': light(s_), 'meta_full': s_, 'cross': 'stream'})
+            ck.count('cross_' + okind)
+    run_both(ck, cross)
+    for c in cross:
+        ck.note_case(c['line'], True)
+        def oracle_x(c):
+            exp = c['meta_full']['out']; r = c['r']
+            if c['cross'] == 'oneshot':
+                return lzma_oracle_exact(c)
+            calls = r.get('res', '').split(';')
+            if any('panic' in x for x in calls): return 'streaming decoder panicked on a well-formed stream'
+            if calls[-1] != 'x:ok' or any(x.startswith('W:err') for x in calls): return 'well-formed stream rejected by the streaming decoder under this configuration (%s)' % ';'.join(x for x in calls if 'err' in x)[:80]
+            if unhx(r.get('out', '-')) != exp: return 'streaming output differs from the bytes the format defines under this configuration'
+            return None
+        judge(ck, c, ['verdict', 'out'] if c['cross'] == 'oneshot' else ['res', 'out'], oracle_x, 'both')
     run_both(ck, cases)
     for c in cases:
         nontrivial = any(c['meta']['kinds'].get(k, 0) for k in 'MSR')
@@ -622,7 +656,8 @@ def run_C03(ck):
     cases = []
     for f in files:
         rd = rng.choice(['all', 'all', '1', '7,3', 'std:buf:%d' % rng.range(1, 64)])
-        cases.append({'line': 'xz_dec in=%s rd=%s' % (hx(f['bytes']), rd), 'meta': f['desc'], 'oracle': exact_oracle(f['out']), 'nontrivial': f['desc']['nblocks'] > 0})
+        wr_ = ' wr=%s' % rng.choice(['1', '3,1', '1000,7']) if rng.chance(1, 3) else ''        # reader and sink policies crossed
+        cases.append({'line': 'xz_dec in=%s rd=%s%s' % (hx(f['bytes']), rd, wr_), 'meta': f['desc'], 'oracle': exact_oracle(f['out']), 'nontrivial': f['desc']['nblocks'] > 0})
         ck.count('blocks_%d' % f['desc']['nblocks']); ck.count('check_%d' % f['check'])
         for hp in f['desc']['header_pads']: ck.count('header_pad_%d' % hp)
     for name in sorted(os.listdir('/repo/tests/files')):
